@@ -63,8 +63,8 @@ MUST_REACH = [
 ]
 MUST_COUNT = ["aggregate_computes_checked", "twin_computes_compared", "dsum_exact_checks",
               "resets_executed"]
-MIN_NONTRIVIAL = {"quick": 8000, "thorough": 300000}
-NCASES = {"quick": (9000, 9000), "thorough": (400000, 400000)}
+MIN_NONTRIVIAL = {"quick": 8000, "thorough": 200000}
+NCASES = {"quick": (9000, 9000), "thorough": (250000, 250000)}
 
 LEVEL_TEXT = ("Seeded random exploration: every compute() of the real accumulators is compared "
               "with an independent aggregate in exact rational arithmetic (DSum exactly, "
